@@ -13,6 +13,13 @@ import (
 func TestMain(m *testing.M) {
 	loadKnownFindings()
 	code := m.Run()
+	flushStats()
+	os.Exit(code)
+}
+
+// flushStats writes the statistics of the property that ran (also called by the watchdog
+// before it ends the process).
+func flushStats() {
 	if curStats != nil && outDir != "" {
 		base := filepath.Join(outDir, "stats."+shardTag)
 		_ = curStats.Flush(base)
@@ -21,7 +28,6 @@ func TestMain(m *testing.M) {
 			_ = os.WriteFile(base+".meta.json", b, 0o644)
 		}
 	}
-	os.Exit(code)
 }
 
 // TestReplay re-judges one saved case: VERIF_REPLAY=<file>. The file is either a
